@@ -409,6 +409,8 @@ def handle (cmd : String) (a : Args) : String :=
       | some inp => (match Guards.scanFile inp with
           | .ok ms => s!"ok {ms.length}"
           | .error .eof => "err UnexpectedEof"
+          -- 1..19 bytes in front of the first member: `error_invalid_data("Data in front of the first LZIP member")`
+          | .error .leading => "err InvalidData"
           | .error _ => "err InvalidData")
       | none => "bad-op"
   | "bcj.code" | "bcj.step" | "delta.enc" | "delta.dec" => handleFilter cmd a
